@@ -1291,8 +1291,9 @@ def replay(rep):  # noqa: F811
 
 # ---- order (C12): the same uniquely named definitions in several orders (bounded stand-in / replay) ----
 _ORDER_DEFS = ['zoa 3 zob', 'zob 2 zoc zokilo', 'zoc 5 m', 'zokilo- 1000', 'zok-- zokilo', 'zolen ? zoarea / m', 'zoarea ? m^2 zobase^-4', 'zosub {\n zod const zoe 2 zoa\n}', '?? doc of zodoc\nzodoc 7 zoa',
-               'zobase !', 'zousesbase 4 zobase zoa', 'zolong ! zolongname', 'zoul 2 zolongname']
-_ORDER_QUERIES = ['zoa', 'zob', '3 zoa -> m', 'zokzoc -> m', 'zodoc', 'zod of zosub', 'zousesbase', 'zoul', 'units for zoarea', '2 zokilozoc']
+               'zobase !', 'zousesbase 4 zobase zoa', 'zolong ! zolongname', 'zoul 2 zolongname',
+               'zq-- 1|10', 'zqa-- 10', 'zzm !', 'azzm 7 zzm', 'zpfoo 3 zqazzm', 'zaplural 2 zokilozocs', '!symbol zoxy Zx', 'zoxy {\n molar_mass mass 16 g / amount mol\n}', '!category zocat "Zo Things"\nzincat 9 m\n!endcategory']
+_ORDER_QUERIES = ['zoa', 'zob', '3 zoa -> m', 'zokzoc -> m', 'zodoc', 'zod of zosub', 'zousesbase', 'zoul', 'units for zoarea', '2 zokilozoc', 'zpfoo -> zzm', 'zaplural -> m', 'zqazzm -> zzm', 'molar_mass of Zx', 'molar_mass of Zx2', 'zincat']
 
 
 def _order_witness():
